@@ -98,7 +98,7 @@ def generate(tier, rng):
   # state handed over through save_state / load_state to a new process
   if tier != 'search':
     subs = []
-    for name in ALGS + (['uniform_arith'] if tier == 'quick' else ['uniform_arith', 'rotated', 'drive']):
+    for name in (['fed_avg', 'mime', 'agnostic', 'hyp_cluster', 'apfl', 'uniform_arith'] if tier == 'quick' else ALGS + ['uniform_arith', 'rotated', 'drive']):
       for ids in (['bytes', 'str'] if tier != 'quick' or name in ('hyp_cluster', 'apfl') else ['bytes']):
         hp = dict(_hp_grid(name, 'quick', rng)[0])
         if name not in AGGS:
@@ -110,7 +110,7 @@ def generate(tier, rng):
 
 
 def _generate_base(tier, rng):
-  reps = {'quick': 5, 'thorough': 16, 'search': 16}[tier]
+  reps = {'quick': 4, 'thorough': 16, 'search': 16}[tier]
   for name in ALGS + AGGS:
     for hp in _hp_grid(name, tier, rng):
       for i in range(reps):
@@ -415,7 +415,7 @@ def run(case):
         ps_in = state.cluster_params if name == 'hyp_cluster' else [state.params]
         ps_out = s1.cluster_params if name == 'hyp_cluster' else [s1.params]
         ro['structure_same'] = len(ps_in) == len(ps_out) and all(
-            _jax.tree_util.tree_structure(a) == _jax.tree_util.tree_structure(b) for a, b in zip(ps_in, ps_out))
+            tiny.kinds(a) == tiny.kinds(b) for a, b in zip(ps_in, ps_out))
       # the same values in plain C-contiguous arrays give the same bits
       if r == 0 and not is_agg and any(s.get('lay') for s in case['pop']):
         plain = [tiny.client_dataset({k: v for k, v in s.items() if k != 'lay'}) for s in case['pop']]
@@ -545,15 +545,22 @@ def _run_xproc(case):
   d = tempfile.mkdtemp(prefix='c10-xproc-')
   try:
     subs = [{'case': c, 'save_at': c['branch'], 'save_path': os.path.join(d, 'state%d' % i)} for i, c in enumerate(case['cases'])]
-    here = history_digests({'cases': subs})
-    obs = {'err': None, 'here': here, 'children': []}
-    for hs in case['hashseeds']:
-      r = xp.call('c10', 'history_digests', {'cases': [{'case': c} for c in case['cases']]}, hs)
-      obs['children'].append({'hashseed': hs, 'kind': 'same history', 'err': r['err'], 'digests': r.get('result')})
-    if case.get('handover'):      # continue, in a new process, from the state this process saved after round `branch`
-      r = xp.call('c10', 'history_digests',
-                  {'cases': [{'case': s['case'], 'start': s['save_at'] + 1, 'path': s['save_path']} for s in subs]}, 2)
-      obs['children'].append({'hashseed': 2, 'kind': 'hand-over', 'err': r['err'], 'digests': r.get('result')})
+    import concurrent.futures
+    with concurrent.futures.ThreadPoolExecutor(4) as ex:     # the children start while this process runs its own copy
+      futs = [(hs, ex.submit(xp.call, 'c10', 'history_digests', {'cases': [{'case': c} for c in case['cases']]}, hs))
+              for hs in case['hashseeds']]
+      here = history_digests({'cases': subs})
+      obs = {'err': None, 'here': here, 'children': []}
+      hand = None
+      if case.get('handover'):      # continue, in a new process, from the state this process saved after round `branch`
+        hand = ex.submit(xp.call, 'c10', 'history_digests',
+                         {'cases': [{'case': s['case'], 'start': s['save_at'] + 1, 'path': s['save_path']} for s in subs]}, 2)
+      for hs, f in futs:
+        r = f.result()
+        obs['children'].append({'hashseed': hs, 'kind': 'same history', 'err': r['err'], 'digests': r.get('result')})
+      if hand is not None:
+        r = hand.result()
+        obs['children'].append({'hashseed': 2, 'kind': 'hand-over', 'err': r['err'], 'digests': r.get('result')})
     return obs
   finally:
     shutil.rmtree(d, ignore_errors=True)
@@ -608,7 +615,7 @@ def oracle(case, obs):
     if not ro.get('earlier_call_same', True):
       out.append((n + '.hidden-state', f'{n} round {r}: an earlier call repeated after other calls through the same object returned a different result'))
     if not ro.get('structure_same', True):
-      out.append((n + '.tree-structure-changed', f'{n} round {r}: the params of the new state do not have the tree structure (container kinds) of the input\'s'))
+      out.append((n + '.tree-structure-changed', f'{n} round {r}: the params of the new state do not have the tree structure (container kinds, dict ~ FlatMap) of the input\'s'))
     if not ro.get('layout_same', True):
       out.append((n + '.layout-dependent', f'{n} round {r}: the same values in non-default memory layouts (F-order, strided, read-only, byte-swapped) give different bits'))
     if not ro.get('eval_state_same', True):
